@@ -11,6 +11,7 @@ package resample
 //@   ensures len(ls) <= 1 ==> ret && same(out, ls)
 //@   ensures !ret ==> same(out, ls) && len(ls) >= 2
 //@   ensures ret && len(ls) >= 2 ==> len(out) == totalPoints
+//@   ensures ret && len(ls) >= 2 ==> (forall k :: 0 <= k && k < len(ls) ==> old(ls[k][0]) == old(ls[0][0]) && old(ls[k][1]) == old(ls[0][1]))
 //@   ensures ret && len(ls) >= 2 ==> (forall k :: 0 <= k && k < len(out) ==> out[k][0] == old(ls[0][0]) && out[k][1] == old(ls[0][1]))
 //@   loop 1: invariant -1 <= rangeindex && rangeindex < len(ls) && equal && (forall k :: 0 <= k && k <= rangeindex ==> ls[k][0] == ls[0][0] && ls[k][1] == ls[0][1])
 //@   loop 2: invariant len(ls) >= 2 && len(ls) <= totalPoints && ls[0][0] == old(ls[0][0]) && ls[0][1] == old(ls[0][1]) && (forall k :: 0 <= k && k < len(ls) ==> ls[k][0] == old(ls[0][0]) && ls[k][1] == old(ls[0][1]))
@@ -28,14 +29,28 @@ package resample
 //@   loop 1: invariant 0 <= i && i <= len(ls) - 1 && len(dists) == len(ls) - 1 && fresh(dists) && dists != nil
 //@   loop 1: invariant forall k :: 0 <= k && k < i ==> same(dists[k], df(ls[k], ls[k+1]))
 
-// the interpolation loop's output count depends on two floating-point inequalities that are not
-// decided here: the contract of resample is ASSUMED (listed), not verified
+// the interpolation loop: memory safety, the frame (the input line and the distances are only read; the
+// result is new storage) and the endpoints are proved. That the loop has emitted exactly totalPoints
+// points when it ends depends on two floating-point inequalities about fl(fl(T*k)/(N-1)) that are not
+// decided: that one fact is ASSUMED at the loop exit (listed), everything else is checked against it.
 //@ func resample(ls, dists, totalDistance, totalPoints)
-//@   trusted
+//@   floats abstract
+//@   requires len(ls) >= 2 && len(dists) == len(ls) - 1 && totalPoints >= 1 && totalPoints <= 1073741824
 //@   modifies nothing
+//@   ensures len(result) == totalPoints && fresh(result)
+//@   ensures totalPoints >= 2 ==> same(result[0][0], ls[0][0]) && same(result[0][1], ls[0][1])
+//@   ensures totalPoints >= 2 ==> same(result[totalPoints-1][0], ls[len(ls)-1][0]) && same(result[totalPoints-1][1], ls[len(ls)-1][1])
+//@   ensures totalPoints == 1 ==> same(result[0][0], ls[0][0]) && same(result[0][1], ls[0][1])
+//@   loop 1: invariant 0 <= i && i <= len(ls) - 1 && len(points) >= 1 && fresh(points) && same(points[0][0], ls[0][0]) && same(points[0][1], ls[0][1])
+//@   loop 2: invariant 0 <= i && i < len(ls) - 1 && len(points) >= 1 && fresh(points) && same(points[0][0], ls[0][0]) && same(points[0][1], ls[0][1])
+//@   loop 1: exitassume len(points) == totalPoints
 
 //@ func Resample(ls, df, totalPoints)
 //@   purefuncs
 //@   requires df != nil && totalPoints <= 1073741824
 //@   ensures totalPoints <= 0 ==> result == nil
 //@   ensures totalPoints >= 1 && len(ls) <= 1 ==> same(result, ls)
+// exactly N points (given the assumption listed on resample), starting and ending at the endpoints
+//@   ensures totalPoints >= 1 && len(ls) >= 2 ==> len(result) == totalPoints
+//@   ensures totalPoints >= 1 && len(ls) >= 2 ==> (same(result[0][0], old(ls[0][0])) || result[0][0] == old(ls[0][0])) && (same(result[0][1], old(ls[0][1])) || result[0][1] == old(ls[0][1]))
+//@   ensures totalPoints >= 2 && len(ls) >= 2 ==> (same(result[totalPoints-1][0], old(ls[len(ls)-1][0])) || result[totalPoints-1][0] == old(ls[len(ls)-1][0])) && (same(result[totalPoints-1][1], old(ls[len(ls)-1][1])) || result[totalPoints-1][1] == old(ls[len(ls)-1][1]))
